@@ -53,6 +53,10 @@ K_RESCAN   == 4   \* Rescan.Start ... error channel
 K_SENDTX   == 5   \* ChainService.SendTransaction
 K_SUB      == 6   \* block subscription, reader blocked on Notifications
 K_SYNC     == 7   \* header / filter-header sync in progress (no caller)
+K_UPDATE   == 8   \* Rescan.Update handed to a rescan goroutine that is busy in a fetch;
+                  \* the activity owns its rescan (started like K_RESCAN variant 1), whose
+                  \* error-channel reader is a second call record [k |-> K_RESCAN, m |-> 1]
+                  \* right after the Update's own record
 
 C_PENDING == 0
 C_SHUT    == 1
